@@ -537,6 +537,47 @@ func runC11R4(c *Ctx) {
 			if !ok || bo.Op != token.EQL {
 				continue
 			}
+			// the returned value on this edge
+			succ := b.Succs[si]
+			q := &PathQuery{Fn: fn}
+			q.Target = func(ins ssa.Instruction, via *ssa.BasicBlock) bool { _, ok := ins.(*ssa.Return); return ok }
+			hits := exploreFromBlock(q, succ, b)
+			var retVal ssa.Value
+			if len(hits) == 1 {
+				r := hits[0].Ins.(*ssa.Return)
+				retVal = resolvePhi(r.Results[0], r.Block(), hits[0].Via)
+			}
+			// the same table spelled as data: a scan over a literal slice of {bbolt error, walletdb error} rows that
+			// compares with one field and returns the other — each row is a case
+			var froms, tos []ssa.Value
+			for _, side := range []ssa.Value{bo.X, bo.Y} {
+				if vs := c.P.rangeFieldValues(side); len(vs) > 0 {
+					froms = vs
+				}
+			}
+			if len(froms) > 0 && retVal != nil {
+				tos = c.P.rangeFieldValues(retVal)
+			}
+			if len(froms) > 0 && len(tos) == len(froms) {
+				for i := range froms {
+					bn := strings.TrimPrefix(valueDesc(froms[i]), "bbolt.")
+					if bn == valueDesc(froms[i]) {
+						continue
+					}
+					n++
+					wn := bn
+					if a, ok := alias[bn]; ok {
+						wn = a
+					}
+					to := valueDesc(tos[i])
+					c.Check("C11-R4", "error-map:"+bn, froms[i].Pos(), to == "walletdb."+wn, fmt.Sprintf("bbolt.%s is mapped to %s, expected walletdb.%s", bn, to, wn))
+					if prev, dup := targets[to]; dup {
+						c.Check("C11-R4", "error-map-injective:"+bn, froms[i].Pos(), false, fmt.Sprintf("bbolt.%s and bbolt.%s map to the same %s", prev, bn, to))
+					}
+					targets[to] = bn
+				}
+				continue
+			}
 			from := valueDesc(bo.Y)
 			if !strings.HasPrefix(from, "bbolt.") {
 				from = valueDesc(bo.X)
@@ -545,18 +586,10 @@ func runC11R4(c *Ctx) {
 				continue
 			}
 			n++
-			// the returned value on this edge
-			succ := b.Succs[si]
-			var ret *ssa.Return
-			q := &PathQuery{Fn: fn}
-			q.Target = func(ins ssa.Instruction, via *ssa.BasicBlock) bool { r, ok := ins.(*ssa.Return); ret = r; return ok }
-			hits := exploreFromBlock(q, succ, b)
 			to := "?"
-			if len(hits) == 1 {
-				r := hits[0].Ins.(*ssa.Return)
-				to = valueDesc(resolvePhi(r.Results[0], r.Block(), hits[0].Via))
+			if retVal != nil {
+				to = valueDesc(retVal)
 			}
-			_ = ret
 			bn := strings.TrimPrefix(from, "bbolt.")
 			wn := bn
 			if a, ok := alias[bn]; ok {
